@@ -114,11 +114,43 @@ def _worker(args):
         mod = importlib.import_module(mod_name)
         res = mod.run_instance(inst, tier=tier, seed=seed)
     except BaseException as e:  # noqa
-        res = new_result(str(inst.get('label', inst) if isinstance(inst, dict) else inst))
-        res['status'] = HARNESS_ERROR
+        label = str(inst.get('label', inst) if isinstance(inst, dict) else inst)
+        res = new_result(label)
+        where = _raised_in_library(e)
+        if where is not None:
+            # the library itself raised while the harness was using it the way it does on the unchanged tree (where no
+            # instance raises): what the property promises for this instance cannot hold - a violation, replayed by
+            # running the instance again
+            mod = importlib.import_module(mod_name)
+            res['status'] = VIOLATION
+            res['violations'].append(violation_record(
+                getattr(mod, 'PROP', '?'), 'instance', dict(kind='library_raises', exc=type(e).__name__, where=where, instance=label),
+                dict(instance=label), None, f'{type(e).__name__}: {e}', 'the instance runs to its end as on the unchanged tree',
+                replay_args=dict(check='instance_raises', label=label, tier=tier, seed=seed)))
+        else:
+            res['status'] = HARNESS_ERROR
         res['notes'].append(f'{type(e).__name__}: {e}\n{traceback.format_exc()[-1500:]}')
     res['wall_s'] = round(time.time()-t0, 3)
     return _jsonable(res)
+
+
+def _raised_in_library(e):
+    """'<file>:<function>' if the exception was raised by code of the library under test (innermost frame inside the
+    repository), else None. Resource and control-flow exceptions are never attributed to the library."""
+    if not isinstance(e, Exception) or isinstance(e, (MemoryError, RecursionError, TimeoutError)):
+        return None
+    repo = os.path.realpath(os.environ.get('VERIF_REPO', '/repo'))
+    tb = e.__traceback__
+    last = None
+    while tb is not None:
+        last = tb
+        tb = tb.tb_next
+    if last is None:
+        return None
+    fn = os.path.realpath(last.tb_frame.f_code.co_filename)
+    if fn.startswith(repo+os.sep) and os.sep+'tests'+os.sep not in fn:
+        return f'{os.path.relpath(fn, repo)}:{last.tb_frame.f_code.co_name}'
+    return None
 
 
 _POOL_INIT_DONE = False
@@ -343,7 +375,21 @@ def main(argv=None):
         mod = importlib.import_module(mod_name)
         with open(a.replay) as fp:
             rec = json.load(fp)
-        ok = mod.replay(rec)
+        ra = rec.get('replay_args') or {}
+        if ra.get('check') == 'instance_raises':
+            ok = False
+            for inst in mod.instances(ra.get('tier', 'quick'), ra.get('seed', 0)):
+                if str(inst.get('label')) == ra['label']:
+                    try:
+                        mod.run_instance(inst, tier=ra.get('tier', 'quick'), seed=ra.get('seed', 0))
+                        print('the instance runs to its end')
+                    except Exception as e:  # noqa
+                        where = _raised_in_library(e)
+                        print(f'{type(e).__name__}: {e} (raised in {where})')
+                        ok = where is not None
+                    break
+        else:
+            ok = mod.replay(rec)
         print('REPRODUCED' if ok else 'NOT REPRODUCED')
         return 1 if ok else 0
     return run_check(prop, mod_name, a.tier, a.seed, jobs=a.jobs, only=a.only)
